@@ -9,6 +9,7 @@ from vf.props import _play as PL
 from vf.props.c04 import parse_board_case, _parse_cards, trick_kind
 
 ID = 'C11'
+USES_SIM = True
 LEVEL = 'exploration'
 RULE_A = ('(a) in process: generated deal, contract (35 bids x 4 declarers) and 52 plays (revokes included) fed to one '
           'PlayingPhaseWithHands and to four ObservedPlayingPhase (own hand; dummy\'s hand set after the opening lead, '
